@@ -55,7 +55,43 @@ pub fn generics(
         }
     }
 
+    inheritance_is_acyclic(&types)?;
     Ok((types, fields, functions))
+}
+
+/// A class may not be its own ancestor, looking up its members would never end.
+fn inheritance_is_acyclic(types: &HashSet<GenericClass>) -> TypeResult<()> {
+    fn reaches(
+        from: &GenericClass,
+        target: &str,
+        types: &HashSet<GenericClass>,
+        seen: &mut HashSet<String>,
+    ) -> bool {
+        from.parents.iter().any(|parent| {
+            let name = &parent.name.variant.name;
+            name == target
+                || (seen.insert(name.clone())
+                    && types
+                        .iter()
+                        .filter(|ty| &ty.name.name == name)
+                        .any(|ty| reaches(ty, target, types, seen)))
+        })
+    }
+
+    let errs: Vec<TypeErr> = types
+        .iter()
+        .filter(|ty| reaches(ty, &ty.name.name, types, &mut HashSet::new()))
+        .map(|ty| {
+            let msg = format!("Cyclic inheritance: {} is its own ancestor", ty.name);
+            TypeErr::new(ty.pos, &msg)
+        })
+        .collect();
+
+    if errs.is_empty() {
+        Ok(())
+    } else {
+        Err(errs)
+    }
 }
 
 /// From import.
